@@ -24,4 +24,10 @@ JOBS = [
                 "assigns": "len, dst, src, __CPROVER_object_whole(dst)",
                 "decreases": "len"}],
      "unwind": 4, "mem_gb": 4, "timeout": 300, "no_native": True},
+    {"name": "leaf_yescrypt_uint32_codec", "props": ["C10", "C01", "C04", "C13", "C06", "C11"],
+     "functions": ["encode64_uint32", "decode64_uint32", "encode64_uint32_fixed", "decode64_uint32_fixed", "atoi64"],
+     "harness": "harness/leafs.c", "defs": ["L_yescrypt_uint32_codec=1"],
+     "repo_src": ["lib/util-base64.c"],
+     "unwind": 9, "mem_gb": 8, "timeout": 600, "no_native": True,
+     "bound": "none on the values (all 2^32 x 2^32 value/minimum pairs); loops are bounded by the operand width (<= 6 characters), unwinding assertions on"},
 ]
